@@ -52,12 +52,12 @@ func (C03) Runs(tier string) int {
 func (C03) Meta() core.Meta {
 	return core.Meta{
 		Level: "fault_enumeration",
-		Rule: "a case = (file with 1..5 stanzas, one header edit, one identity able to open the original, delivery schedule). Sweep runs enumerate every single-bit flip of the header bytes of a small file; sampled runs apply one byte-level edit (insert/delete/substitute incl. CR, space, '='), one line-ending/separator translation (CR before a line end, CRLF everywhere, trailing space, blank line, joined lines, tab or double space for a separator; sweep runs apply these to every line), one write-level fault on the recorded Header.Marshal write list (drop/duplicate/swap a write or a run of writes: lost, replayed, reordered flushes) or one structural edit by the reference writer with the MAC left stale or replaced (type/argument/body substitution, grease insertion at every position, stanza deletion/duplication/permutation, MAC random or under another file key). Non-trivial = the image differs from the original; distinct = distinct (file skeleton, edit, identity, delivery).",
+		Rule: "a case = (file with 1..5 stanzas, one header edit, one identity able to open the original — alone, or listed before or after an identity that matches nothing —, delivery schedule). Sweep runs enumerate every single-bit flip of the header bytes of a small file; sampled runs apply one byte-level edit (insert/delete/substitute incl. CR, space, '='), one line-ending/separator translation (CR before a line end, CRLF everywhere, trailing space, blank line, joined lines, tab or double space for a separator; sweep runs apply these to every line), one write-level fault on the recorded Header.Marshal write list (drop/duplicate/swap a write or a run of writes: lost, replayed, reordered flushes) or one structural edit by the reference writer with the MAC left stale or replaced (type/argument/body substitution, grease insertion at every position, stanza deletion/duplication/permutation, MAC random or under another file key). Non-trivial = the image differs from the original; distinct = distinct (file skeleton, edit, identity, delivery).",
 		Assumptions: []string{"the editor does not hold the file key (a recipient can always re-MAC; that is outside the property)", "HMAC-SHA-256/HKDF are the trusted base"},
 		Real:        []string{"filippo.io/age Decrypt", "internal/format Parse", "X25519/scrypt/ssh identities", "headerMAC"},
 		Stub:        []string{"ciphertext source", "stored header image (edited copy of what SimDisk recorded)", "crypto/rand.Reader (tape)", "byzantine editor (reference writer without the key)"},
 		FaultKinds:  []string{"fault.flip", "fault.insert", "fault.delete", "fault.subst", "fault.wdrop", "fault.wdup", "fault.wswap", "fault.type", "fault.arg", "fault.argdel", "fault.argadd", "fault.body", "fault.bodylen", "fault.grease_insert", "fault.stanza_delete", "fault.stanza_dup", "fault.permute", "fault.mac_random", "fault.mac_otherkey", "fault.eol_cr", "fault.eol_crlf_all", "fault.eol_space", "fault.eol_blank", "fault.eol_join", "fault.sep_tab", "fault.sep_double"},
-		Probes:      []string{"probe.edit_in_other_recipients_stanza", "probe.still_parseable", "probe.unparseable", "probe.trivial_same_image", "probe.rejected_bad_mac", "probe.rejected_no_match", "probe.bufio_reuse_path", "probe.bufio_rewrap_path", "probe.fault_landed_in_payload"},
+		Probes:      []string{"probe.edit_in_other_recipients_stanza", "probe.still_parseable", "probe.unparseable", "probe.trivial_same_image", "probe.rejected_bad_mac", "probe.rejected_no_match", "probe.bufio_reuse_path", "probe.bufio_rewrap_path", "probe.fault_landed_in_payload", "probe.identity_list_alone", "probe.identity_list_first-of-two", "probe.identity_list_last-of-two"},
 	}
 }
 
@@ -330,6 +330,21 @@ func (e C03) Execute(plan interface{}, c *core.Ctx) *core.Verdict {
 		deliveries = append(deliveries, seam.Delivery{Mode: "whole", Bufio: 4096})
 	}
 
+	// an identity that matches no stanza of the file
+	outsider := world.Key{T: "x", K: 0}
+	for cand := 0; cand < world.NX25519; cand++ {
+		outsider = world.Key{T: "x", K: cand}
+		clash := false
+		for _, k := range keys {
+			if world.SameKey(k, outsider) {
+				clash = true
+			}
+		}
+		if !clash {
+			break
+		}
+	}
+	shapeCtr := p.Delivery.Bufio + len(p.File.Recips) // deterministic starting point
 	check := func(ed *HeaderEdit) *core.Verdict {
 		img, ok := applyHeaderEdit(ed, F, l, disk, keys[0])
 		if !ok {
@@ -347,8 +362,20 @@ func (e C03) Execute(plan interface{}, c *core.Ctx) *core.Verdict {
 				c.Stats.Inc("probe.unparseable")
 			}
 		}
+		shapeCtr++
 		for oi, k := range openers {
-			id := world.Identity(k)
+			// the identity able to open the file, alone or next to identities that match nothing
+			ids := []age.Identity{world.Identity(k)}
+			shape := "alone"
+			switch (shapeCtr + oi) % 3 {
+			case 1:
+				ids = append(ids, world.Identity(outsider))
+				shape = "first-of-two"
+			case 2:
+				ids = append([]age.Identity{world.Identity(outsider)}, ids...)
+				shape = "last-of-two"
+			}
+			c.Stats.Inc("probe.identity_list_" + shape)
 			for _, d := range deliveries {
 				if d.Bufio >= 4096 {
 					c.Stats.Inc("probe.bufio_reuse_path")
@@ -356,9 +383,9 @@ func (e C03) Execute(plan interface{}, c *core.Ctx) *core.Verdict {
 					c.Stats.Inc("probe.bufio_rewrap_path")
 				}
 				src := seam.NewSource(img, d, nil, nil)
-				r, err := age.Decrypt(src.Reader(), id)
-				c.Log.Add("edit %+v id=%s delivery=%s -> err=%v reader=%v", *ed, k, d, err, r != nil)
-				c.Stats.Eval(fmt.Sprintf("%s|%+v|%s|%s", spec.Skeleton(), *ed, k, d), !same)
+				r, err := age.Decrypt(src.Reader(), ids...)
+				c.Log.Add("edit %+v id=%s(%s) delivery=%s -> err=%v reader=%v", *ed, k, shape, d, err, r != nil)
+				c.Stats.Eval(fmt.Sprintf("%s|%+v|%s|%s|%s", spec.Skeleton(), *ed, k, shape, d), !same)
 				if same {
 					if err != nil {
 						v := core.Fail("C03.honest_rejected", "unedited file rejected for identity %s: %v", k, err)
@@ -381,7 +408,7 @@ func (e C03) Execute(plan interface{}, c *core.Ctx) *core.Verdict {
 					continue
 				}
 				if err == nil {
-					v := core.Fail("C03.accepted", "header edit %+v on %s accepted for identity %s (delivery %s): Decrypt returned no error", *ed, spec.Skeleton(), k, d)
+					v := core.Fail("C03.accepted", "header edit %+v on %s accepted for identity %s (identity list: %s; delivery %s): Decrypt returned no error", *ed, spec.Skeleton(), k, shape, d)
 					v.Narrow = narrow(d)
 					return v
 				}
